@@ -1008,6 +1008,15 @@ class Interp:
     def ev_Constant(self, node):
         return VConst(node.value)
 
+    def ev_NamedExpr(self, node):
+        # (name := value): binds the name (in the enclosing function's scope) and is the value
+        v = self.eval(node.value)
+        fr = self.frames[-1]
+        while getattr(fr, "is_comp", False) and fr.closure is not None:
+            fr = fr.closure  # a walrus inside a comprehension binds in the enclosing scope
+        fr.env[node.target.id] = v
+        return v
+
     def ev_Name(self, node):
         return self.lookup_name(node.id, node)
 
@@ -1170,12 +1179,14 @@ class Interp:
 
     def _comp(self, node, gens, emit, first_iter=None, frame=None):
         """Comprehension driver: nested generators over concrete or abstract iterables."""
+        first_box = [first_iter]
+
         def rec(i):
             if i == len(gens):
                 emit()
                 return True
             g = gens[i]
-            it = first_iter if (i == 0 and first_iter is not None) else self.eval(g.iter)
+            it = first_box[0] if (i == 0 and first_box[0] is not None) else self.eval(g.iter)
             items = self.concrete_items(it)
             if items is None or len(items) > 64:
                 # abstract: one generic element
@@ -1216,6 +1227,7 @@ class Interp:
             concrete = True
             g0 = gens[0]
             it0 = first_iter if first_iter is not None else self.eval(g0.iter)
+            first_box[0] = it0  # the first iterable is evaluated once (a call in it is made once)
             if self.concrete_items(it0) is None or len(self.concrete_items(it0)) > 64:
                 concrete = False
             rec(0)
@@ -1906,6 +1918,22 @@ class Interp:
         if detail != "set .data":
             obj.version += 1
         if not tv.view:
+            segs = getattr(obj, "segments", None)
+            if segs is not None:
+                # what is known about the pieces of a concatenation follows an in-place scaling of the whole (x.neg_(), x.div_(n));
+                # after any other write it is no longer known
+                oa = obj.term.single_atom() if obj.term is not None and hasattr(obj.term, "single_atom") else None
+                sm = newterm.single_mono() if newterm is not None and hasattr(newterm, "single_mono") else None
+                if oa is not None and sm is not None and len(sm[0]) >= 1 and any(a_ is oa or a_ == oa for a_, pw_ in sm[0] if pw_ == 1):
+                    factor = newterm * T.inv(T.P(oa)) if False else None
+                    rest = tuple((a_, pw_) for a_, pw_ in sm[0] if not (a_ == oa and pw_ == 1))
+                    fac = T.Poly({rest: sm[1]}) if rest else T.const(sm[1])
+                    if oa not in fac.all_atoms():
+                        obj.segments = [((fac * st_) if st_ is not None else None, sd_) for st_, sd_ in segs]
+                    else:
+                        obj.segments = None
+                else:
+                    obj.segments = None
             obj.term = newterm
             if newshape is not None:
                 obj.shape = newshape
